@@ -19,7 +19,10 @@ def fr(x):
 
 
 def fro(x):
-    """exact Fraction of a float/int result"""
+    """exact Fraction of a float/int result ("nan" / "inf" / "-inf" for non-finite values)"""
+    x = float(x) if not isinstance(x, int) else x
+    if isinstance(x, float) and (x != x or abs(x) == float("inf")):
+        return repr(x)
     return frac_str(Fraction(x))
 
 
@@ -607,12 +610,12 @@ class CtorSuite:
              "co_hist := %s; co_comp := %s; co_is_trough := %s; co_nrows := %d; co_ncols := %d |}"
              % (clist([clist([cstr(w) for w in row]) for row in obs["wells"]]),
                 clist(["(%s, (%d, %d))" % (cstr(k), v[0], v[1]) for k, v in obs["keys"]]),
-                obs["vshape"][0], obs["vshape"][1], cq(obs["min"]), cq(obs["max"]), den, nums, hist,
+                obs["vshape"][0], obs["vshape"][1], cq(progbase._fr(obs["min"])), cq(progbase._fr(obs["max"])), den, nums, hist,
                 progbase.e_compobs(obs["comp"]), cbool(obs["is_trough"]), obs["n_rows"], obs["n_columns"]))
         return f"(KCtor {spec} (Ok {o}))"
 
     def nontrivial(self, case, obs):
-        return not obs.get("err") and len(obs["vols"]) >= 2 and any(Fraction(v) > 0 for v in obs["vols"])
+        return not obs.get("err") and len(obs["vols"]) >= 2 and any(v not in ("nan", "inf", "-inf") and Fraction(v) > 0 for v in obs["vols"])
 
     def kind(self, case, obs):
         return case["spec"]["kind"] + ":" + (obs.get("exc") or "ok")
